@@ -40,7 +40,7 @@ ASSUMPTIONS = [
 ]
 NOT_COVERED = (
     "Lambert: hyperbolic and multi-revolution transfers, transfer angles within 15 deg of 0/180/360, orbit planes containing the z axis; "
-    "flyby() (references undefined names, not in the property); beta with an Orbit/Ephem as secondary object; sso_frozen()/frozen()"
+    "flyby() (references undefined names, not in the property); beta with an Orbit/Ephem as secondary object"
 )
 
 _G = {}
@@ -125,6 +125,20 @@ def check_lambert(case, t):
     d0 = Date(2020, 3, 1, 6, 0, 0)
     o0 = Orbit(list(r0) + [0.0, 0.0, 0.0], d0, "cartesian", "EME2000", None)
     o1 = Orbit(list(r1) + [0.0, 0.0, 0.0], d0 + timedelta(seconds=tof), "cartesian", "EME2000", None)
+    f0, f1 = case.get("f0", "EME2000"), case.get("f1", "EME2000")
+    mixed = (f0, f1) != ("EME2000", "EME2000") or case.get("form1", "cartesian") != "cartesian"
+    if mixed:
+        # the same two positions, handed over in different frames sharing the centre (and another form for the target):
+        # the computation frame is orb0's; the target position in that frame comes from the library's frame code
+        if f0 != "EME2000":
+            o0 = o0.copy(frame=f0)
+        if f1 != "EME2000":
+            o1 = o1.copy(frame=f1)
+        if case.get("form1", "cartesian") != "cartesian":
+            o1 = o1.copy(form=case["form1"])
+        r0 = np.array(o0.copy(form="cartesian"), dtype=float)[:3]
+        r1 = np.array(o1.copy(frame=f0, form="cartesian"), dtype=float)[:3]
+        t.trans(4)
     way = "short" if phi < math.pi else "long"
     cls = f"{'prograde' if pro else 'retrograde'}-{way}"
     clause = "Lambert velocities propagated with two-body dynamics for the transfer time arrive at the target position"
@@ -137,7 +151,7 @@ def check_lambert(case, t):
     a = np.array(a, dtype=float)
     b = np.array(b, dtype=float)
     if not (np.array_equal(a[:3], r0) and np.array_equal(b[:3], r1)):
-        t.fail("lambert/positions-changed", "end positions are those requested", case, [r0, r1], [a[:3], b[:3]])
+        t.fail("lambert/positions-changed" + ("/mixed-frames" if mixed else ""), "end positions are those requested (in the frame of the initial orbit)", case, [r0, r1], [a[:3], b[:3]])
     if not (np.all(np.isfinite(a)) and np.all(np.isfinite(b))):
         t.fail("lambert/non-finite", clause, case, "finite velocities", [a[3:], b[3:]], f"phi={math.degrees(phi):.0f} tof={tof}")
         t.outcome(("lambert", cls, "nan"))
@@ -154,7 +168,7 @@ def check_lambert(case, t):
     ok1 = t.margin("Lambert arrival miss [m] / 5 m", miss, 5.0, case)
     ok2 = t.margin("Lambert arrival velocity [m/s] / 5 mm/s", dv, 5e-3, case)
     if not (ok1 and ok2):
-        t.fail("lambert/arrival", clause + " to within metres", case, [0.0, 0.0], [miss, dv],
+        t.fail("lambert/arrival" + ("/mixed-frames" if mixed else ""), clause + " to within metres", case, [0.0, 0.0], [miss, dv],
                f"miss {miss:.3f} m, velocity mismatch {dv*1e3:.3f} mm/s; {cls} phi={math.degrees(phi):.0f} deg tof={tof:.3f} s (tp={tp:.1f}, tme={tme:.1f}); energy {energy:.3e}")
     t.outcome(("lambert", cls, case["tof"], "miss>1m" if miss > 1 else "miss<1m"))
 
@@ -234,6 +248,66 @@ def check_sso(case, t):
             break
     t.outcome(("sso", round(i, 2)))
 
+
+
+def check_frozen(case, t):
+    """sso_frozen(a) is a fixpoint of the two definitions it iterates, frozen() is its closed form, the real J2 propagator
+    drifts the node at the mean solar rate for the result, and the absence of a solution is reported by ValueError."""
+    from beyond.utils.leo import sso, frozen, sso_frozen
+    from beyond.constants import Earth
+    from beyond.dates import Date, timedelta
+    from beyond.orbits import Orbit
+
+    a = case["a"]
+    eps = 2.2e-16
+    has_solution = math.isfinite(float(sso(a=a, e=0.0)))
+    t.trans()
+    try:
+        e, i, w = (float(x) for x in sso_frozen(a))
+        t.trans()
+    except ValueError:
+        if has_solution:
+            t.fail("sso_frozen/raises", "sso_frozen finds the sun-synchronous frozen orbit where one exists", case, "(e, i, w)", "ValueError")
+        else:
+            t.exclude("no sun-synchronous inclination for this a (ValueError raised, as required)")
+            t.outcome(("frozen", "valueerror"))
+        return
+    if not has_solution or not all(math.isfinite(x) for x in (e, i, w)):
+        t.fail("sso_frozen/no-solution-not-reported", "where no sun-synchronous frozen orbit exists a ValueError is raised, not a value",
+               case, "ValueError", [e, i, w])
+        return
+    # fixpoint: the loop stops when |de| < 1e-12, and di/de = 4 e / tan(i) for the sun-synchronous condition
+    i2 = float(sso(a=a, e=e))
+    e2, w2 = (float(x) for x in frozen(a, i))
+    t.trans(2)
+    tol_i = 4 * e * 1e-12 / abs(math.tan(i)) + 8 * eps * (1 + 1 / abs(math.tan(i)))
+    if not t.margin("sso_frozen: i vs sso(a, e) [rad over tol]", abs(i2 - i), tol_i, case):
+        t.fail("sso_frozen/fixpoint-i", "the result satisfies i = sso(a=a, e=e)", case, i2, i)
+    if not t.margin("sso_frozen: e vs frozen(a, i) [abs over 4 ulp]", abs(e2 - e), 4 * eps * abs(e), case) or w2 != w:
+        t.fail("sso_frozen/fixpoint-e", "the result satisfies (e, w) = frozen(a, i)", case, [e2, w2], [e, w])
+    # closed form of the frozen eccentricity from the constants, and w = pi/2
+    e_ref = -float(Earth.r) * math.sin(i) * float(Earth.J3) / (2 * float(Earth.J2) * a)
+    if not t.margin("frozen(a, i) vs -R sin(i) J3 / (2 J2 a) [rel over 8 ulp]", abs(e2 / e_ref - 1), 8 * eps, case):
+        t.fail("frozen/closed-form", "frozen eccentricity is -R sin(i) J3 / (2 J2 a)", case, e_ref, e2)
+    if w != math.pi / 2:
+        t.fail("frozen/argument-of-perigee", "frozen argument of perigee is pi/2", case, math.pi / 2, w)
+    if not (0 < e < 0.01 and math.pi / 2 < i <= math.pi):
+        t.fail("sso_frozen/range", "small positive eccentricity, retrograde inclination", case, "0<e<0.01, i>pi/2", [e, i])
+    # node drift of the real J2 propagator for (a, e, i, w)
+    d0 = Date(2015, 6, 1)
+    days = 10
+    try:
+        r = Orbit([a, e, i, 1.0, w, 0.2], d0, "keplerian_mean", "EME2000", "J2").propagate(d0 + timedelta(days=days))
+        t.trans()
+        Om = float(r.copy(form="keplerian")[3])
+    except Exception as ex:
+        t.fail("sso/j2-raises", "J2 propagation of a sun-synchronous orbit", case, "a state", repr(ex))
+        return
+    rate = ((Om - 1.0 + math.pi) % (2 * math.pi) - math.pi) / (days * 86400.0)
+    want = 2 * math.pi / TROPICAL_YEAR
+    if not t.margin("sso_frozen: J2 node drift vs mean solar rate [rel] / 1e-4", abs(rate / want - 1), 1e-4, case):
+        t.fail("sso_frozen/node-drift", "the sun-synchronous frozen orbit drifts its node at the mean solar rate under J2", case, want, rate)
+    t.outcome(("frozen", round(i, 2)))
 
 
 def check_sso_hist(case, t):
@@ -382,6 +456,63 @@ def check_bplane(case, t):
     if np.linalg.norm(hv / np.linalg.norm(hv) - hh) > 1e-12:
         t.fail(sig + "/h", "h is the angular momentum", case, hh, hv)
     t.outcome(("bplane", body, e))
+
+
+
+BPLANE_FORMS = ["keplerian", "spherical", "keplerian_mean", "keplerian_eccentric"]
+
+
+def check_bplane_form(case, t):
+    """The same hyperbolic state handed to bplane() in a non-cartesian form (and, for the Earth, in another frame of the
+    same centre): the result is the one obtained for the cartesian form of that very orbit."""
+    from mc.ref import twobody
+    from beyond.dates import Date
+    from beyond.orbits import Orbit
+    from beyond.utils.interplanetary import bplane
+
+    _ensure()
+    body, e, fa, oi = case["body"], case["e"], case["fa"], case["orient"]
+    frame = _frame(body)
+    mu = float(frame.center.body.mu)
+    a = -BODIES[body][1] / (e - 1)
+    inc, Om, w = ORIENTATIONS[oi]
+    rv = twobody.kep_to_cart(a, e, inc, Om, w, fa * math.acos(-1 / e), mu)
+    clause = "the B-plane of a hyperbolic state does not depend on the form (or frame label) the state is handed over in"
+    sig = "bplane/input-form"
+    try:
+        orb = Orbit(rv, Date(2020, 1, 1), "cartesian", frame, None)
+        if case.get("frame"):
+            orb = orb.copy(frame=case["frame"])
+        of = orb.copy(form=case["form"])
+        oc = of.copy(form="cartesian")
+        t.trans(3)
+    except Exception as ex:
+        t.exclude("form not defined for this hyperbolic state (" + type(ex).__name__ + ")")
+        return
+    if not (np.all(np.isfinite(np.array(of, dtype=float))) and np.all(np.isfinite(np.array(oc, dtype=float)))):
+        t.exclude("form conversion of the hyperbolic state is not finite (subject of C01)")
+        return
+    try:
+        bf = bplane(of)
+        bc = bplane(oc)
+        t.trans(2)
+    except Exception as ex:
+        t.fail(sig + "/raises", clause, case, "BPlane", repr(ex))
+        return
+    worst = 0.0
+    for name in ("B", "S", "T", "R", "e", "h"):
+        x = np.array(getattr(bf, name), dtype=float)
+        y = np.array(getattr(bc, name), dtype=float)
+        if not np.all(np.isfinite(x)):
+            worst = float("inf")
+            break
+        worst = max(worst, np.linalg.norm(x - y) / max(np.linalg.norm(y), 1e-300))
+    th = abs(float(bf.theta) - float(bc.theta))
+    worst = max(worst, th if math.isfinite(th) else float("inf"))
+    if not t.margin("bplane: non-cartesian input vs cartesian input [rel]", worst, 1e-13, case):
+        t.fail(sig, clause, case, [np.array(bc.B, dtype=float), np.array(bc.S, dtype=float)], [np.array(bf.B, dtype=float), np.array(bf.S, dtype=float)],
+               f"form {case['form']} frame {case.get('frame') or frame.name}: relative difference {worst:.3e}")
+    t.outcome(("bplane-form", case["form"], case.get("frame")))
 
 
 # ---------------------------------------------------------------------------
@@ -679,7 +810,7 @@ def check_beta_body(case, t):
 
 # ---------------------------------------------------------------------------
 
-CHECKS = dict(lambert=check_lambert, sso=check_sso, sso_hist=check_sso_hist, bplane=check_bplane, ltan=check_ltan, walker=check_walker, beta=check_beta,
+CHECKS = dict(lambert=check_lambert, sso=check_sso, sso_hist=check_sso_hist, frozen=check_frozen, bplane=check_bplane, bplane_form=check_bplane_form, ltan=check_ltan, walker=check_walker, beta=check_beta,
               orb2ltan=check_orb2ltan, beta_body=check_beta_body)
 
 
@@ -707,10 +838,18 @@ def cases(tier):
         dict(kind="lambert", R0=R0, delta=dl, ratio=ra, inc=inc, tof=tf, prograde=pro)
         for R0 in R0s for dl in deltas for ra in ratios for inc in incs for tf in tofs for pro in (True, False)
     ]
+    pairs = [("EME2000", "TEME"), ("TEME", "EME2000"), ("EME2000", "MOD"), ("MOD", "EME2000"), ("GCRF", "EME2000"), ("EME2000", "GCRF"),
+             ("EME2000", "EME2000")]
+    out["lambert"] += [
+        dict(kind="lambert", R0=R0, delta=dl, ratio=1.5, inc=inc, tof="1.0tme", prograde=pro, f0=f0, f1=f1, form1=fm)
+        for R0 in R0s for dl in deltas for inc in incs[:2] for pro in (True, False) for (f0, f1) in pairs for fm in ("cartesian", "spherical")
+        if (f0, f1, fm) != ("EME2000", "EME2000", "cartesian")
+    ]
     # SSO
     a_s = [6578e3 + k * (50e3 if q else 12.5e3) for k in range(120 if q else 480)]
     e_s = [0.0, 1e-4, 0.001, 0.01, 0.05, 0.2] if q else [0.0, 1e-6, 1e-4, 0.001, 0.01, 0.05, 0.1, 0.2, 0.4]
     out["sso"] = [dict(kind="sso", a=a, e=e) for a in a_s for e in e_s]
+    out["sso"] += [dict(kind="frozen", a=a) for a in a_s]
     grid = [(a, e) for a in a_s for e in e_s]
     for k in range(0, len(grid), 8):
         for mode in ("shared", "inplace"):
@@ -721,6 +860,9 @@ def cases(tier):
     ors = [0, 1, 2] if q else [0, 1, 2, 3, 4]
     bodies = ["Earth", "Sun"] if q else ["Earth", "Sun", "Moon"]
     out["bplane"] = [dict(kind="bplane", body=b, e=e, fa=fa, orient=o) for b in bodies for e in es for fa in fas for o in ors]
+    out["bplane"] += [dict(kind="bplane_form", body=b, e=e, fa=fa, orient=o, form=fm, frame=fr)
+                      for b in bodies for e in es for fa in fas[::2] for o in ors[:2] for fm in BPLANE_FORMS
+                      for fr in ((None, "TEME", "MOD") if b == "Earth" else (None,))]
     # LTAN
     n = 24 if q else 96
     lt = []
